@@ -72,11 +72,12 @@ def load_one(lit: LineIterator) -> dict:
     nelec = int(header_info["NELEC"])
     spinpol = int(header_info["MS2"])
 
-    # skip rest of header
-    for line in lit:
-        words = line.split()
-        if words[0] == "&END" or words[0] == "/END" or words[0] == "/":
-            break
+    # skip rest of header, unless the namelist already ends on the first line
+    if "&END" not in line.upper() and "/" not in line:
+        for line in lit:
+            words = line.split()
+            if words[0] == "&END" or words[0] == "/END" or words[0] == "/":
+                break
 
     # read the integrals
     one_mo = np.zeros((nbasis, nbasis))
